@@ -205,7 +205,7 @@ func TestDriveC16(t *testing.T) {
 	r := rand.New(rand.NewSource(seed))
 	for i := 0; i < n; i++ {
 		sseed := r.Int63()
-		variation := int((seed+int64(i))%3) + 10*int(((seed+int64(i))/3)%3) // variation + 10 * kind of fault
+		variation := int((seed+int64(i))%3) + 10*int(((seed+int64(i))/3)%4) // variation + 10 * kind of fault
 		if (seed+int64(i))%4 == 0 {
 			variation += 100 // all fans are analysed by the PWM-map sweep of computePwmMap only, and start close together
 		}
@@ -343,7 +343,12 @@ func runC16Scenario(rec *Recorder, r *rand.Rand, parallel bool, nfMax int, varia
 					cancel()
 				})
 			}
-			if fire && variation == 2 {
+			if fire && variation == 2 && faultKind == 3 {
+				// the RPM input dies when the measurement leaves PWM 0 (the settle loop - which waits for readings for ever - and
+				// the standstill level are through) and stays dead far longer than the measurement could last: nothing but a
+				// standstill reading exists, so there is nothing to derive limits from
+				h.ReadFaultOnWrite(fanId+".rpm", 300, fanId+".pwm", 1)
+			} else if fire && variation == 2 {
 				after(delay, func() {
 					// which access fails decides whether the sequence aborts: a refused PWM write always does, a failed
 					// RPM read only outside the settle loop, a failed PWM read only if it is not the feature probe
